@@ -310,7 +310,10 @@ impl BoxHeader {
         if self.size > u32::MAX as u64 {
             writer.write_u32::<BigEndian>(1)?;
             writer.write_u32::<BigEndian>(self.name.into())?;
-            writer.write_u64::<BigEndian>(self.size)?;
+            // `size` counts an 8-byte header; the 64-bit form has 16 bytes of header, and
+            // `BoxHeader::read` subtracts the extra 8 again.
+            let largesize = self.size.checked_add(8).ok_or(Error::InvalidData("box size too large"))?;
+            writer.write_u64::<BigEndian>(largesize)?;
             Ok(16)
         } else {
             writer.write_u32::<BigEndian>(self.size as u32)?;
